@@ -165,7 +165,7 @@ class Pats:
         for _ in n.eps:
             e.new()
         for s in range(len(n.eps)):
-            for t in n.eps[s] + n.bol[s] + n.eol[s]:
+            for t in n.eps[s] + n.bol[s] + n.eol[s] + n.eos[s]:
                 e.edge(s, None, t)
             for blocks, t in n.trans[s]:
                 for b in blocks:
